@@ -421,8 +421,8 @@ add("C10", "fixed", "ws:plain:if", "with shorthand template comments enabled, an
     [{"segs": ["a  {#- b"], "tc": True}, {"segs": [" p ", {"k": "out", "f": [0, 0], "lit": "L"}, "a \n{#-"], "tc": True}], "a0a0418")
 
 add("C17", "fixed", "stale-clock:filter:date", "{{ 'now' | date: fmt }} (and 'today') went through the date filter's memo: every later render printed the time of the first render that used "
-    "that format, until ten other date calls evicted the entry",
-    [], "b13bdc7")
+    "that format, until ten other date calls evicted the entry; a time without a date ('10:00'), which the parser completes from today's date, kept the first render's day on later days",
+    [], "b13bdc7, 522941a")
 
 add("C09", "fixed", "render-exceeds-step-budget:render:lax-mode-fanout", "in lax / warn mode ContextDepthError was reported per node and rendering went on: a partial that renders (or includes) itself twice per "
     "level rendered 2^depth-limit times (hours with the default limit of 30) instead of being cut off",
@@ -471,10 +471,6 @@ add("C19", "fixed", "global-not-reported:in-partial", "an extends (or include) i
 add("C27", "fixed", "macro:arguments-without-commas", "{% call f 1 2 %} and {% call f a: 1 b: 2 %} (no comma between the arguments) bound the first argument and silently dropped the rest, in strict mode too; "
     "left-over tokens are now a syntax error",
     [{"kind": "macro", "params": ["none", "none"], "npos": 2, "kws": [], "call_comma": False, "async": False}], "7843a2f")
-
-add("C17", "fixed", "stale-clock:filter:date", "a time without a date ('10:00' | date: ...) is completed from today's date by the parser, but went through the date filter's memo without the date in the key: "
-    "the first render's day was served on later days (residue of b13bdc7, which only took 'now' and 'today' out of the memo)",
-    [], "522941a")
 
 if __name__ == "__main__":
     # further entries are appended by tools/mkfindings.py from triaged replay files and kept in findings_extra.json
